@@ -24,6 +24,9 @@ class Undefined(Exception):
     pass
 
 
+MAX_EXTENT = 1 << 20
+
+
 class ParseFail(Exception):
     """path: innermost first [(field_name, class_name, offset_where_the_field_begins), ...]"""
 
@@ -136,17 +139,20 @@ class GenBuf:
     def top(self):
         return (max(self.b) + 1) if self.b else 0
 
+    def fix(self, n):
+        """Decide the total length (never beyond maxlen: cursors can be astronomically large)."""
+        self.fixed = max(self.top(), min(max(n, 0), self.maxlen))
+
     def length(self):
         if self.fixed is None:
-            self.fixed = min(self.maxlen, max(self.top(), self.high) + self.rng.choice(self.tail_extra))
-            self.fixed = max(self.fixed, self.top())
+            self.fix(max(self.top(), min(self.high, self.maxlen)) + self.rng.choice(self.tail_extra))
         return self.fixed
 
     def read(self, a, b):
         if a < 0 or b < a:
             raise Undefined("negative cursor/size read")
         if self.fixed is None and b > self.maxlen:
-            self.fixed = max(self.top(), min(self.high, self.maxlen))
+            self.fix(self.high)
         if self.fixed is not None:
             b = min(b, self.fixed)
         out = bytearray()
@@ -545,7 +551,7 @@ class Parser:
             if buf.is_gen and buf.fixed is None:
                 # decide whether the input ends here
                 if self.rng.random() < 0.45 or len(seq) >= 4:
-                    buf.fixed = max(buf.top(), cursor)
+                    buf.fix(cursor)
             return cursor >= buf.length()
         if k == "peek_eq":
             buf = self.buf
@@ -667,7 +673,7 @@ class Parser:
                 body = bytes(self.rng.choice(BODY_ALPHABET) for _ in range(L))
                 buf.hint(cursor, body + d)
                 if d == b"" and buf.fixed is None:
-                    buf.fixed = max(buf.top(), cursor + L)
+                    buf.fix(cursor + L)
             window = buf.read(cursor, cursor + W) if W else buf.tail(cursor)
             mo = re.compile(pattern).search(window)
             if not mo:
@@ -706,6 +712,8 @@ def parse(fam, buf, offset=0, rng=None):
     """Parse the family's root declaration. Returns ParseOk or raises ParseFail/Undefined."""
     p = Parser(fam, buf, rng)
     pv, end = p.parse_decl(fam["root"], offset, ())
+    if p.tr.extent > MAX_EXTENT:
+        raise Undefined("cursor beyond any reasonable buffer (serializing would hit a resource limit)")
     return ParseOk(pv, end, p.tr)
 
 
@@ -738,6 +746,8 @@ class ShadowFragments:
     def insert(self, p, data, path=None):
         if p < 0:
             raise Undefined("negative write position")
+        if p + len(data) > MAX_EXTENT:
+            raise Undefined("position beyond any reasonable buffer (resource limit, not a property)")
         if data:
             for q in range(p, p + len(data)):
                 if q in self.bytes:
